@@ -186,10 +186,21 @@ def u2(prog, ctx):
         up = c.up()
         if up is not None and up.k == "BinaryOperator" and up.j.get("op") == "=":
             vars_.add(render(up.children[0]))
-    if len(vars_) != 1:
+    # the result may travel on through copies (a helper's return variable copied into the caller's status variable)
+    evs = set(vars_)
+    grew = True
+    while grew:
+        grew = False
+        for lhs9, rhs9, st9 in f.assignments():
+            nm9 = lhs9["name"] if isinstance(lhs9, dict) else render(lhs9)
+            if rhs9 is not None and render(rhs9.strip()) in evs and nm9 not in evs:
+                evs.add(nm9)
+                grew = True
+    tested = set(lit.atom for (b, i, s2) in cfg.edges() for lit in [cfg.edge_lit(b, i)] if lit is not None and lit.kind == "truth" and lit.atom in evs)
+    if len(vars_) != 1 and len(tested) != 1:
         ctx.inconclusive("U2", "library result is kept", f.where, "results stored in %s" % sorted(vars_))
         return
-    ev = list(vars_)[0]
+    ev = list(tested)[0] if len(tested) == 1 else list(vars_)[0]
     bad = []
     for r in f.returns():
         rb = cfg.block_of(r)
@@ -283,6 +294,14 @@ def u3_u4(prog, ctx):
     pairs = set()
     for c in m.calls(("econf_read", "econf_cat")):
         args = [render(x) for x in c.call_args()]
+        if (c.j["callee"] == "econf_read" and len(args) < 3) or (c.j["callee"] == "econf_cat" and len(args) < 2):
+            # the options travel in another form (one settings object): every sub-command must get the same one
+            objs = set(tuple(render(x) for x in c2.call_args() if "struct" in (x.j.get("ct") or "")) for c2 in m.calls(("econf_read", "econf_cat", "econf_edit")))
+            if len(objs) == 1 and list(objs)[0]:
+                ctx.ok("U4", "all sub-commands get the same delimiter/comment options", m.where, "one settings object %s for every sub-command" % list(list(objs)[0]))
+            else:
+                ctx.inconclusive("U4", "all sub-commands get the same delimiter/comment options", m.where, "the sub-commands take their options in a form not understood")
+            return
         pairs.add((args[-3], args[-2]) if c.j["callee"] == "econf_read" else (args[0], args[1]))
     rdm = ReachingDefs(m)
     defsets = {}
@@ -332,6 +351,16 @@ def u6_u8(prog, ctx):
                 continue
             if r.k == "CallExpr" and r.j.get("callee") == "replace_str" and render(r.call_args()[0]) == v:
                 continue
+            # a translation of the whole argument by a function of the tool (escape notations): the variable itself is handed over
+            if r.k == "CallExpr" and r.call_args() and any(render(a9) == v for a9 in r.call_args()) and (
+                    r.j.get("callee") in prog.util_functions or r.j.get("callee") in getattr(prog, "inlined_helpers", {})):
+                continue
+            if r.k == "DeclRefExpr" and r.j.get("dk") == "local":
+                mo = getattr(m, "original", m)
+                ds9 = [r9 for l9, r9, s9 in mo.assignments() if (l9["name"] if isinstance(l9, dict) else render(l9)) == render(r) and r9 is not None and not r9.is_null_const()]
+                if ds9 and all(r9.strip().k == "CallExpr" and any(render(a9) == v for a9 in r9.strip().call_args()) and r9.strip().j.get("callee") in prog.util_functions
+                               for r9 in ds9):
+                    continue
             if r.k == "DeclRefExpr" and r.j.get("dk") == "local" and (r.j.get("ct") or "").endswith("]"):
                 # the variable points at a fixed local array: whatever is copied into it is at most that long
                 bad = (st, "`%s` points at the %s-byte array `%s`: only a prefix of the argument can ever get there" % (v, r.j.get("ct"), render(r)))
